@@ -14,7 +14,7 @@ import (
 func init() {
 	register("C08", &ruleSet{
 		run:    runC08,
-		floors: map[string]int{"O1": 2, "O2": 1, "O3": 2, "O4": 3, "O5": 3},
+		floors: map[string]int{"O1": 2, "O2": 1, "O3": 2, "O4": 3, "O5": 3, "O6": 3},
 		explain: "Decides necessary sign conditions of 'more latency never means more limit' for Vegas and Gradient (Gradient2 is declined: its long-term average also absorbs the " +
 			"sample, so the quotient long/short has mixed polarity syntactically; threshold ordering, rounding, probe and baseline-lowering samples are excluded): (O1) polarity: " +
 			"the control signal is monotone in the sample RTT in the right direction - Vegas's queue estimate is non-decreasing in rtt, and on every Gradient path the stored " +
@@ -175,6 +175,8 @@ func runC08(p *Prog, l *Ledger) {
 	l.Assume("measurement values (baselines, RTT averages) are >= 0 and are not changed by the sample under comparison (the property's proviso)")
 	l.Rule("O4", "what the monotonicity argument takes as given is established by the code: every stored estimate of the delay-based algorithms stays within its bounds (the C04/O1 rules on the same tree: a floor applied on one branch only makes a slower sample land higher)")
 	l.Rule("O5", "the smoothing factor is within [0,1]: every constructor stores a value proved >= 0 and <= 1 and nothing rewrites it (a negative weight reverses the direction of the update)")
+	l.Rule("O6", "no sample is set aside by a one-sided test (decided by the C07/O5 rule on the same tree, all four algorithms): a saturated drop-free sample moves the estimate unless a measured quantity was bounded from both sides; a dead band or a skip that depends on the sample's rtt makes the outcome jump with the rtt")
+	importObligations(p, l, "C07", "O6", func(o *Obligation) bool { return o.Rule == "O5" })
 	importObligations(p, l, "C04", "O4", func(o *Obligation) bool {
 		return o.Rule == "O1" && (strings.Contains(o.Key, "VegasLimit") || strings.Contains(o.Key, "GradientLimit") || strings.Contains(o.Key, "Gradient2Limit"))
 	})
